@@ -2,6 +2,7 @@ package main
 
 import (
 	"fmt"
+	"sort"
 	"go/ast"
 	"go/types"
 	"strings"
@@ -40,7 +41,7 @@ func (e *Engine) VerifyFunc(key string) (res *FuncResult) {
 		}
 	}()
 	for attempt := 0; attempt < 6; attempt++ {
-		x := &Exec{e: e, vc: NewVC(key), top: fi, trusted: map[string]bool{}, pendingMods: map[string]bool{}, setofMemo: map[string]string{}, anchorHits: map[string]int{}, storeInfo: map[string][2]string{}, freshRefs: map[string]int{}}
+		x := &Exec{e: e, vc: NewVC(key), top: fi, trusted: map[string]bool{}, pendingMods: map[string]bool{}, setofMemo: map[string]string{}, anchorHits: map[string]int{}, storeInfo: map[string][2]string{}, freshRefs: map[string]int{}, inlinedKeys: map[string]bool{}}
 		if fi.Decl == nil {
 			x.runLemma(fi, e.db.Funcs[key])
 		} else {
@@ -48,6 +49,10 @@ func (e *Engine) VerifyFunc(key string) (res *FuncResult) {
 		}
 		res.Restarts = attempt
 		if !x.newKeys && len(x.pendingMods) == 0 {
+			if unb := x.unboundClauses(); len(unb) > 0 {
+				res.Err = "UNBOUND: contract clauses that bind to nothing in the current source: " + strings.Join(unb, "; ")
+				return
+			}
 			x.finalizeObls()
 			res.Obls = x.vc.obls
 			res.Abstracted = x.vc.abstracted
@@ -147,8 +152,10 @@ func (x *Exec) run(fi *FuncInfo) {
 	}
 	// entry reachability (vacuity guard)
 	x.oblige(st, fi.Key+".$entry-sat", "vacuity", fi.Decl.Pos(), "requires/assumptions are satisfiable", "false")
-	end := x.block(fi.Decl.Body.List, st)
-	if end != nil {
+	x.split = ct != nil && ct.Flags["splitexits"]
+	ends := x.blockM(fi.Decl.Body.List, []*State{st})
+	x.split = false
+	for _, end := range ends {
 		var zs []*Val
 		for _, rv := range fr.results {
 			if rv.Name() != "" && rv.Name() != "_" {
@@ -171,38 +178,51 @@ func (x *Exec) run(fi *FuncInfo) {
 	if len(fr.rets) == 0 {
 		return
 	}
+	finish := func(m *State, vals []*Val) {
+		if m.needRetCut {
+			x.release(m, fi.Decl.Body, "ret", fr.recv)
+		}
+		// bind results for ensures
+		for i, rv := range fr.results {
+			name := rv.Name()
+			if name == "" || name == "_" {
+				if len(fr.results) == 1 {
+					name = "result"
+				} else {
+					name = fmt.Sprintf("result%d", i)
+				}
+				if i == len(fr.results)-1 && rv.Type().String() == "error" {
+					fr.extra["err"] = vals[i]
+				}
+			}
+			fr.extra[name] = vals[i]
+		}
+		if len(vals) == 1 {
+			fr.extra["result"] = vals[0]
+		}
+		x.curWatch = x.collectWatch(fi, fr, m)
+		x.vc.watch = x.curWatch
+		if ct != nil {
+			for _, c := range ct.ClausesOf("ensures") {
+				g := x.cevalClauseAt(c, m, fr, fi.Decl.Body.Rbrace)
+				lab := c.Label
+				if lab == "" {
+					lab = fmt.Sprintf("post%d", c.Line)
+				}
+				x.oblige(m, fi.Key+"."+lab, "ensures", fi.Decl.Body.Rbrace, c.Src, g)
+			}
+		}
+		x.curWatch = nil
+	}
+	if ct != nil && ct.Flags["splitexits"] {
+		// every return path is checked on its own (no join of array-valued state)
+		for i := range fr.rets {
+			finish(fr.rets[i], fr.retVals[i])
+		}
+		return
+	}
 	m, vals := x.mergeStates(fr.rets, fr.retVals)
-	if m.needRetCut {
-		x.release(m, fi.Decl.Body, "ret", fr.recv)
-	}
-	// bind results for ensures
-	for i, rv := range fr.results {
-		name := rv.Name()
-		if name == "" || name == "_" {
-			if len(fr.results) == 1 {
-				name = "result"
-			} else {
-				name = fmt.Sprintf("result%d", i)
-			}
-			if i == len(fr.results)-1 && rv.Type().String() == "error" {
-				fr.extra["err"] = vals[i]
-			}
-		}
-		fr.extra[name] = vals[i]
-	}
-	if len(vals) == 1 {
-		fr.extra["result"] = vals[0]
-	}
-	if ct != nil {
-		for _, c := range ct.ClausesOf("ensures") {
-			g := x.cevalClauseAt(c, m, fr, fi.Decl.Body.Rbrace)
-			lab := c.Label
-			if lab == "" {
-				lab = fmt.Sprintf("post%d", c.Line)
-			}
-			x.oblige(m, fi.Key+"."+lab, "ensures", fi.Decl.Body.Rbrace, c.Src, g)
-		}
-	}
+	finish(m, vals)
 }
 
 func derefNamed(t types.Type) (string, bool) {
@@ -312,4 +332,121 @@ func (x *Exec) runLemma(fi *FuncInfo, ct *FuncContract) {
 		}
 	}
 	x.oblige(st, ct.Key+".$entry-sat", "vacuity", 0, "lemma hypotheses are satisfiable", "false")
+}
+
+// collectWatch records the terms that describe the function's pre- and post-state, for witnesses.
+func (x *Exec) collectWatch(fi *FuncInfo, fr *Frame, final *State) []watchTerm {
+	pre := x.firstSec
+	if pre == nil {
+		pre = fr.entry
+	}
+	var out []watchTerm
+	add := func(label, term string) { out = append(out, watchTerm{label, term}) }
+	var addVal func(label string, v *Val, st *State, tag string, depth int)
+	addStructAt := func(label string, t types.Type, ref string, st *State, tag string, depth int) {
+		sname, stt := x.structInfo(t)
+		if stt == nil || x.e.kindOf(t) != KStruct {
+			return
+		}
+		var ffs []flatField
+		x.e.flatFields(stt, "", &ffs)
+		for _, ff := range ffs {
+			v := x.fieldRead(st, sname, ff.Path, ff.T, ref)
+			addVal(label+"."+ff.Path, v, st, tag, depth+1)
+		}
+	}
+	addVal = func(label string, v *Val, st *State, tag string, depth int) {
+		if v == nil || depth > 3 {
+			return
+		}
+		switch v.K {
+		case KInt, KBool:
+			add(tag+label, v.S)
+			if v.K == KInt && v.T != nil && depth < 2 {
+				if pt, ok := v.T.Underlying().(*types.Pointer); ok {
+					addStructAt(label, pt.Elem(), v.S, st, tag, depth)
+				}
+			}
+		case KStruct:
+			for _, k := range sortedKeys(v.F) {
+				addVal(label+"."+k, v.F[k], st, tag, depth+1)
+			}
+		case KSlice:
+			add(tag+label+".len", v.F["len"].S)
+			el := v.T.Underlying().(*types.Slice).Elem()
+			for i := 0; i < 4; i++ {
+				ev := x.sliceElem(st, v, fmt.Sprint(i), el)
+				addVal(fmt.Sprintf("%s[%d]", label, i), ev, st, tag, depth+1)
+			}
+		}
+	}
+	nf := len(x.vc.facts)
+	for _, o := range sortedObjNames(fr.entry.vars) {
+		if strings.HasPrefix(o.Name(), "$") {
+			continue
+		}
+		v := fr.entry.vars[o]
+		addVal(o.Name(), v, pre, "pre:", 0)
+		if v.K == KInt && v.T != nil {
+			if _, ok := v.T.Underlying().(*types.Pointer); ok {
+				addVal(o.Name(), v, final, "post:", 0)
+			}
+		}
+	}
+	for _, g := range x.e.db.Ghosts {
+		sort := x.ghostSort(g.Type)
+		for _, sp := range []struct {
+			tag string
+			st  *State
+		}{{"pre:", pre}, {"post:", final}} {
+			t := x.heapGet(sp.st, "g."+g.Name, sort)
+			if sort == SInt || sort == SBool {
+				add(sp.tag+g.Name, t)
+			} else if g.Name != "answered" {
+				for i := 0; i < 10; i++ {
+					add(fmt.Sprintf("%s%s[%d]", sp.tag, g.Name, i), Select(t, fmt.Sprint(i)))
+				}
+			}
+		}
+	}
+	for i, v := range fr.extra {
+		addVal("result."+i, v, final, "post:", 2)
+	}
+	// facts created while building watch terms are harmless truths; keep the fact list unchanged
+	for _, f := range x.vc.facts[nf:] {
+		delete(x.vc.factSet, f)
+	}
+	x.vc.facts = x.vc.facts[:nf]
+	return out
+}
+
+// unboundClauses lists loop invariants and at-clauses (of the top function's contract and of the
+// contracts of functions inlined into it) that matched no loop / call / assignment.
+func (x *Exec) unboundClauses() []string {
+	var out []string
+	seen := map[string]bool{}
+	for k := range x.inlinedKeys {
+		seen[k] = true
+	}
+	seen[x.top.Key] = true
+	for k := range seen {
+		ct := x.e.db.Funcs[k]
+		if ct == nil {
+			continue
+		}
+		for _, c := range ct.Clauses {
+			switch c.Kind {
+			case "invariant":
+				if x.anchorHits[k+"|loop "+c.LoopKey+"|"+c.Label] == 0 {
+					out = append(out, fmt.Sprintf("%s: loop %s invariant [%s]", k, c.LoopKey, c.Label))
+				}
+			case "at-assert":
+				if x.anchorHits[k+"|"+c.Anchor+"|"+c.Label] == 0 {
+					out = append(out, fmt.Sprintf("%s: at %s [%s]", k, c.Anchor, c.Label))
+				}
+			}
+		}
+	}
+	sort.Strings(out)
+	return out
 }
